@@ -152,7 +152,9 @@ func present(mask int) []string {
 	return o
 }
 
-var argAlphabet = []string{"a", "tk", "marker", "k=v", "-x", "--set", "--", "--raw", "x/y.z", "-", "=", "run", "list", "A_b-1", "--set=x=1", "-c"}
+var argAlphabet = []string{"a", "tk", "marker", "k=v", "-x", "--set", "--", "--raw", "x/y.z", "-", "=", "run", "list", "A_b-1", "--set=x=1", "-c",
+	// words that hold white space, and the empty word: .ArgsList keeps the word boundaries
+	"hello world", "", "tab\tin", " lead"}
 
 // TestVars: per rapid case every non-empty subset of the four levels (7 for a direct run), with a
 // drawn run mode, drawn values and a drawn argument vector for the built-ins.
@@ -277,7 +279,7 @@ func TestArgs(t *testing.T) {
 		b, _ := json.Marshal(c)
 		special := 0
 		for _, w := range c.Words {
-			if strings.HasPrefix(w, "-") || strings.Contains(w, "=") || w == "tk" || w == "marker" || w == "run" || w == "list" {
+			if strings.HasPrefix(w, "-") || strings.Contains(w, "=") || w == "tk" || w == "marker" || w == "run" || w == "list" || w == "" || strings.ContainsAny(w, " \t") {
 				special++
 			}
 		}
